@@ -114,7 +114,7 @@ func (d *AV1Depacketizer) Unmarshal(payload []byte) (buff []byte, err error) {
 		offset += lengthField
 
 		if isLast && obuY {
-			d.buffer = obuBuffer
+			d.buffer = append([]byte{}, obuBuffer...)
 
 			break
 		}
